@@ -192,6 +192,11 @@ def tensor_einsum_reduce_sum(expr, *args, order):
             return tf.einsum(expr, *args)
 
     require_order = sorted(set(ein_s[0]) - {","}, key=lambda x: order[x])
+    if len(require_order) > 5:
+        # broadcasting of more than 5 dimensions is not implemented by the
+        # multiply kernel; inside tf.function that only fails at run time,
+        # where the caller can no longer fall back
+        return tf.einsum(expr, *args)
 
     # transpose
     t_args = []
